@@ -20,6 +20,7 @@ limitations under the License.
 package client
 
 import (
+	"bytes"
 	"context"
 	"crypto/ecdsa"
 	"crypto/sha256"
@@ -1161,6 +1162,11 @@ func (c *immuClient) verifiedGet(ctx context.Context, kReq *schema.KeyRequest) (
 	if vEntry.Entry.ReferencedBy == nil {
 		if kReq.AtTx == 0 {
 			vTx = vEntry.Entry.Tx
+		}
+
+		// the entry is returned to the caller as it is: its key and transaction id must be the proven ones
+		if !bytes.Equal(vEntry.Entry.Key, kReq.Key) || vEntry.Entry.Tx != vTx {
+			return nil, store.ErrCorruptedData
 		}
 
 		e = database.EncodeEntrySpec(kReq.Key, schema.KVMetadataFromProto(vEntry.Entry.Metadata), vEntry.Entry.Value)
